@@ -243,7 +243,7 @@ def write_cfg(path, base_cfg_text, constants=None, extra=None):
 
 def run_tlc(spec_dir, module, cfg_path, tag, workers=None, dump_dot=None, simulate=None, depth=None,
             seed=None, coverage=True, timeout=900, env=None, jvm_opts=None, deadlock=None, extra_args=None,
-            xmx="8g"):
+            xmx="4g"):
     """Runs TLC; returns TlcResult. Never raises on property violation; raises MachineryError when TLC
     itself failed (parse error, crash, timeout)."""
     metadir = os.path.join(TLCDIR, tag)
